@@ -47,19 +47,22 @@ def run_scenes(exe, drv, scenes):
         if rc != 0 or len(sp) != len(ch) or len(rs) != len(ch):
             return [{'scene': s, 'err': 'harness rc=%d scenes=%d/%d %s' % (rc, len(sp), len(ch), err[-300:])} for s in ch]
         inp = []
+        npass = []
         for s, (dump, _), r in zip(ch, sp, rs):
-            inp += L.driver_regions(dump)
+            inp += L.driver_regions(dump, s, complete=not r['exc'])
             inp += L.driver_scene(s, r)
+            npass.append(L.count_passes(dump))
         rc2, o, e, dt2 = C.sh([drv], input='\n'.join(inp) + '\n', timeout=900)
-        regs, svs = L.parse_driver(o)
-        if rc2 != 0 or len(svs) != len(ch) or len(regs) != sum(len(r['regions']) for r in rs):
+        regs, svs, pvs = L.parse_driver(o)
+        if rc2 != 0 or len(svs) != len(ch) or len(regs) != sum(len(r['regions']) for r in rs) or len(pvs) != sum(npass):
             return [{'scene': s, 'err': 'driver rc=%d scenes=%d/%d regions=%d/%d %s' %
                      (rc2, len(svs), len(ch), len(regs), sum(len(r['regions']) for r in rs), e[-300:])} for s in ch]
-        out_l, k = [], 0
-        for s, r, sv in zip(ch, rs, svs):
+        out_l, k, kp = [], 0, 0
+        for s, r, sv, np_ in zip(ch, rs, svs, npass):
             n = len(r['regions'])
-            out_l.append({'scene': s, 'res': r, 'regs': regs[k:k + n], 'sv': sv, 'err': None})
+            out_l.append({'scene': s, 'res': r, 'regs': regs[k:k + n], 'sv': sv, 'pvs': pvs[kp:kp + np_], 'err': None})
             k += n
+            kp += np_
         return out_l
     with ThreadPoolExecutor(C.NPROC) as ex:
         parts = list(ex.map(one, chunks))
@@ -72,39 +75,58 @@ def replay_of(sc):
 
 
 def classify_scene(sc, r, sv):
-    """known-finding classifier for a scene-level failure (predicates on the failing case, DESIGN 3.5)"""
+    """known-finding classifier for a scene-level failure (predicates on the failing case, DESIGN 3.5).  EVERY failing
+    clause of the scene checker must be explained by a predicate (every lost checkpoint, every overlapping pair); one
+    unexplained item and the scene is reported as a violation."""
     fps = []
     o0, o3 = sc['opts'][0], sc['opts'][3]
-    if (sv.get('ends') or sv.get('cps')) and o0 == 1:
+    if sv.get('nseg') or sv.get('orth') or sv.get('clear'):
+        return []
+    if sv.get('ends'):
+        if o0 != 1:
+            return []
+        fps.append('final_segment_nudging_moves_ends')
+    if sv.get('cps') and o0 == 1:
         fps.append('final_segment_nudging_moves_ends')
     if sv.get('cps') and o0 == 0:
-        # every checkpoint that left the route sits at the tip of a collinear spur of route() (the route runs to the
-        # checkpoint and straight back), which Polygon::simplify() removes
-        spur = True
+        # every checkpoint that left the route must be explained by one of three predicates:
+        #  spur:   it sits at the tip of a collinear spur of route() (the route runs to the checkpoint and straight back),
+        #          which Polygon::simplify() removes;
+        #  corner: the unifying pass put the adjoining shiftable segment exactly onto the checkpoint's coordinate, after
+        #          which the checkpoint no longer limits it;
+        #  plain:  it lies on a dumped segment that is `fixed` but carries no checkpoints, and another segment of its
+        #          connector was aligned (canAlignWith, 0 gap) onto that segment
+        why = []
         for cid in [int(c) for c in sv['cps'].split(',') if c]:
-            raw = r['routes'][cid]['O']
-            disp = r['routes'][cid]['D']
+            raw, disp = r['routes'][cid]['O'], r['routes'][cid]['D']
             for p in sc['cps'].get(cid, []):
-                if L.on_route_py(raw, p) and not L.on_route_py(disp, p) and not L.spur_tip(raw, p):
-                    spur = False
-        if spur:
-            fps.append('checkpoint_on_collinear_spur')
-        else:
-            # the lost checkpoint lies on a dumped segment that is `fixed` but carries no checkpoints, and that segment
-            # may align (canAlignWith) with another segment of its connector
-            hit = True
-            for cid in [int(c) for c in sv['cps'].split(',') if c]:
-                for p in sc['cps'].get(cid, []):
-                    if L.on_route_py(r['routes'][cid]['O'], p) and not L.on_route_py(r['routes'][cid]['D'], p) \
-                            and not L.spur_tip(r['routes'][cid]['O'], p) and not L.cp_on_plain_fixed_segment(r['regions'], cid, p):
-                        hit = False
-            if hit:
-                fps.append('checkpoint_segment_without_checkpoints')
-    if sv.get('pairs') and o3 == 0 and any(rel[3] for g in r['regions'] for rel in g['rel'].values()):
-        fps.append('shared_path_flag_per_connector_pair')
-    elif sv.get('pairs') and all(L.sandwiched(r['regions'], int(a), int(b))
-                                 for a, b in (p.split('/') for p in sv['pairs'].split(',') if p)):
-        fps.append('movable_between_immovable_same_position')
+                if L.on_route_py(raw, p) and not L.on_route_py(disp, p):
+                    if L.spur_tip(raw, p):
+                        why.append('checkpoint_on_collinear_spur')
+                    elif L.cp_at_moved_corner(sc, r['regions'], cid, p):
+                        why.append('checkpoint_at_corner_after_unify')
+                    elif L.cp_on_plain_fixed_segment(r['regions'], cid, p):
+                        why.append('checkpoint_segment_without_checkpoints')
+                    else:
+                        why.append(None)
+        if not why or None in why:
+            return []           # an unexplained lost checkpoint: no classifier may absorb the scene
+        fps.append(why[0])
+    if sv.get('pairs'):
+        why = []
+        for a, b in (p.split('/') for p in sv['pairs'].split(',') if p):
+            a, b = int(a), int(b)
+            if o3 == 0 and (L.pair_flagged_shared(r['regions'], a, b) or L.blocked_by_shared_equality(r['regions'], a, b)):
+                why.append('shared_path_flag_per_connector_pair')
+            elif L.overlap_created_across_dimensions(r, a, b):
+                why.append('overlap_created_by_other_dimension')
+            elif L.sandwiched(r['regions'], a, b):
+                why.append('movable_between_immovable_same_position')
+            else:
+                why.append(None)
+        if not why or None in why:
+            return []
+        fps.append(why[0])
     return fps
 
 
@@ -172,6 +194,7 @@ def run(tier):
             st['trace_' + d.get('trace', '?')] += 1
             st['chk_' + d.get('chk', '?')] += 1
             st['vpsc_' + d.get('vpsc', '?')] += 1
+            st['rel_' + d.get('rel', '?')] += 1
             if d.get('assert', '-') != '-':
                 st['model_assert_' + d['assert'].split('@')[0]] += 1
             if d.get('error'):
@@ -188,8 +211,21 @@ def run(tier):
                 elif reported < 3:
                     if res.violation(o):
                         reported += 1
-            elif d.get('gen') == 'DIFF' or d.get('trace') == 'DIFF' or d.get('vpsc') == 'DIFF':
+            elif d.get('gen') == 'DIFF' or d.get('trace') == 'DIFF' or d.get('vpsc') == 'DIFF' or d.get('rel') == 'DIFF':
                 corr_diffs.append({'scene_script': L.scene_text(sc), 'driver': d['line'], 'region': L.region_json(g)})
+        for pv in x.get('pvs', []):
+            st['passes'] += 1
+            st['grp_' + pv.get('grp', '?')] += 1
+            if pv.get('error'):
+                errors.append(pv['line'])
+            inner = [c for c in pv.get('cpl', '').split(',') if c and ':inner:' in c]
+            st['cpl_corner'] += sum(1 for c in pv.get('cpl', '').split(',') if ':corner:' in c)
+            st['cpl_inner'] += len(inner)
+            if pv.get('grp') == 'DIFF' or (inner and sc['opts'][0] == 0):
+                corr_diffs.append({'scene_script': L.scene_text(sc), 'driver': pv['line'],
+                                   'what': 'pass-level correspondence (hook H1b): the regions formed by the code differ from the '
+                                           'partition the symmetric model computes from the whole segment list, or a shiftable '
+                                           'segment is not limited by a checkpoint lying inside the adjoining route segment'})
         if not r['exc'] and not r['done']:
             errors.append('scene %s: harness output incomplete' % sc['id'])
         if r['exc']:
@@ -249,10 +285,11 @@ def replay(path):
         if x.get('err'):
             print(x['err'])
             return 2
-        for d in x['regs']:
+        for d in x['regs'] + x.get('pvs', []):
             print(d['line'])
         print(x['sv']['line'])
-        bad = x['sv'].get('ok') != '1' or any(d.get('chk') == '0' for d in x['regs'])
+        bad = x['sv'].get('ok') != '1' or any(d.get('chk') == '0' or d.get('rel') == 'DIFF' for d in x['regs']) \
+            or any(pv.get('grp') == 'DIFF' for pv in x.get('pvs', []))
         return 1 if bad else 0
     return 0
 
